@@ -11,6 +11,7 @@ import (
 	"io"
 	"sync"
 
+	"github.com/postalsys/muti-metroo/internal/verifhook"
 	"golang.org/x/crypto/chacha20poly1305"
 	"golang.org/x/crypto/curve25519"
 	"golang.org/x/crypto/hkdf"
@@ -124,6 +125,7 @@ func DeriveSessionKey(sharedSecret [KeySize]byte, streamID uint64,
 		panic(fmt.Sprintf("HKDF failed: %v", err))
 	}
 
+	verifhook.Point("crypto.derive", sk, streamID, isInitiator)
 	return sk
 }
 
@@ -138,6 +140,7 @@ func (s *SessionKey) Encrypt(plaintext []byte) ([]byte, error) {
 	nonce := s.buildSendNonce()
 	s.sendNonce++
 	s.mu.Unlock()
+	verifhook.Point("crypto.seal", s, &nonce)
 
 	aead, err := chacha20poly1305.New(s.key[:])
 	if err != nil {
